@@ -82,14 +82,15 @@ theorem hasSuffix_rowKey {H : Bytes → Bytes} (hlen : ∀ x, (H x).length = 32)
   simp [hasSuffix, rowKey, hlen]
   by_cases h : H x = H y <;> simp [h]
 
-theorem dbGet_row {H : Bytes → Bytes} (hlen : ∀ x, (H x).length = 32)
-    (hinj : ∀ a b, H a = H b → a = b) (db : DB) (q : Nibs) (x : Bytes) (hx : 2 ≤ x.length)
+theorem dbGet_row {H : Bytes → Bytes} {Dom : Bytes → Prop} (hlen : ∀ x, (H x).length = 32)
+    (hinj : InjOn H Dom) (h0 : Dom [0]) (db : DB) (q : Nibs) (x : Bytes) (hd : Dom x)
+    (hx : 2 ≤ x.length)
     (hf : db.find (rowKey q (H x)) = some x) : dbGet H db (rowKey q (H x)) = some x := by
   unfold dbGet
   rw [hasSuffix_rowKey hlen]
   have : ¬ H x = H [0] := by
     intro e
-    have := hinj _ _ e
+    have := hinj _ _ hd h0 e
     rw [this] at hx
     simp at hx
   simp [this, hf]
@@ -101,8 +102,9 @@ def committedDb (ver : Ver) (H : Bytes → Bytes) (death : Death) (t : Trie) : D
   applyW [] (death.map WOp.del ++ putsOf ver H t [] ++
     [WOp.put (H (encodeNode ver H t)) (encodeNode ver H t)])
 
-theorem committed_find {ver : Ver} {H : Bytes → Bytes} (hlen : ∀ x, (H x).length = 32)
-    (hinj : ∀ a b, H a = H b → a = b) (death : Death) (t : Trie) (k x : Bytes)
+theorem committed_find {ver : Ver} {H : Bytes → Bytes} {Dom : Bytes → Prop}
+    (hlen : ∀ x, (H x).length = 32)
+    (hinj : InjOn H Dom) (death : Death) (t : Trie) (ht : t ≠ nil) (hcov : Covers ver H Dom t) (k x : Bytes)
     (h : WOp.put k x ∈ putsOf ver H t [] ++ [WOp.put (H (encodeNode ver H t)) (encodeNode ver H t)]) :
     (committedDb ver H death t).find k = some x := by
   unfold committedDb
@@ -110,12 +112,13 @@ theorem committed_find {ver : Ver} {H : Bytes → Bytes} (hlen : ∀ x, (H x).le
   apply find_applyW_mem hlen hinj _ _ _ _ _ h
   intro op hop
   rcases List.mem_append.mp hop with h1 | h1
-  · exact putsOf_content ver H t [] op h1
-  · simp at h1; subst h1; exact ⟨[], rfl⟩
+  · exact putsOf_content ver H Dom t hcov [] op h1
+  · simp at h1; subst h1; exact ⟨⟨[], rfl⟩, hcov.1 _ (nodeOf_self ht)⟩
 
 /-- `Get` on a fresh instance at the committed root of a non-empty trie -/
-theorem get_committed (c : Cfg) (hlen : ∀ x, (c.H x).length = 32)
-    (hinj : ∀ a b, c.H a = c.H b → a = b) (death : Death) (t : Trie) (ht : t ≠ nil)
+theorem get_committed (c : Cfg) {Dom : Bytes → Prop} (hlen : ∀ x, (c.H x).length = 32)
+    (hinj : InjOn c.H Dom) (h0 : Dom [0]) (death : Death) (t : Trie) (ht : t ≠ nil)
+    (hcov : Covers c.ver c.H Dom t)
     (hdec : ∀ n, NodeOf n t → c.dec (encodeNode c.ver c.H n) = some (viewOf c.ver c.H n))
     (k : Bytes) :
     doGet c { db := committedDb c.ver c.H death t, root := .persisted (c.H (encodeNode c.ver c.H t)),
@@ -123,18 +126,18 @@ theorem get_committed (c : Cfg) (hlen : ∀ x, (c.H x).length = 32)
   have henc := encodeNode_length c.ver c.H hlen t ht
   have hroot : dbGet c.H (committedDb c.ver c.H death t) (rowKey [] (c.H (encodeNode c.ver c.H t))) =
       some (encodeNode c.ver c.H t) := by
-    apply dbGet_row hlen hinj _ _ _ henc
-    apply committed_find hlen hinj
+    apply dbGet_row hlen hinj h0 _ _ _ (hcov.1 _ (nodeOf_self ht)) henc
+    apply committed_find hlen hinj death t ht hcov
     simp [rowKey, prefixBytes]
   have hst : Stored c.ver c.H (dbGet c.H (committedDb c.ver c.H death t)) t [] := by
     apply stored_of_puts
     intro k x hk
-    obtain ⟨q, hq⟩ := putsOf_content c.ver c.H t [] _ hk
+    obtain ⟨⟨q, hq⟩, hdx⟩ := putsOf_content c.ver c.H Dom t hcov [] _ hk
     have hsz := putsOf_size c.ver c.H t [] k x hk
     rw [hq]
-    apply dbGet_row hlen hinj _ _ _ (by omega)
+    apply dbGet_row hlen hinj h0 _ _ _ hdx (by omega)
     rw [← hq]
-    exact committed_find hlen hinj death t k x (List.mem_append_left _ hk)
+    exact committed_find hlen hinj death t ht hcov k x (List.mem_append_left _ hk)
   simp only [doGet, lookupMem, lookupDB, Cfg.env, hroot]
   exact lookupData_eq
     { H := c.H, dec := c.dec, ver := c.ver, db := committedDb c.ver c.H death t } k t hdec ht
@@ -167,8 +170,8 @@ theorem sess_commit_state (c : Cfg) {s : St} {t : Trie} (h : Sess c s t) :
 /-- `Get` on a fresh instance opened at the root committed by a session returns the trie's
     `lookup` for every key -/
 theorem sess_reopen_get (c : Cfg) (hdec0 : c.dec [0] = some .empty)
-    (hlen : ∀ x, (c.H x).length = 32) (hinj : ∀ a b, c.H a = c.H b → a = b)
-    {s : St} {t : Trie} (h : Sess c s t)
+    {Dom : Bytes → Prop} (hlen : ∀ x, (c.H x).length = 32) (hinj : InjOn c.H Dom) (h0 : Dom [0])
+    {s : St} {t : Trie} (h : Sess c s t) (hcov : Covers c.ver c.H Dom t)
     (hdec : ∀ n, NodeOf n t → c.dec (encodeNode c.ver c.H n) = some (viewOf c.ver c.H n)) :
     ∃ s', commit c.H s = .ok s' ∧ s'.rootHash = hashTrie c.ver c.H t ∧
       ∀ k, doGet c (reopenAt s') k = lookup t (toNibs k) := by
@@ -183,6 +186,6 @@ theorem sess_reopen_get (c : Cfg) (hdec0 : c.dec [0] = some .empty)
       simp only [Trie.isNil, if_true, reopenAt, hr, doGet, lookupMem, lookupDB, Cfg.env, h.db,
         dbGet, rowKey, prefixBytes, List.nil_append, hasSuffix_self, lookupData, hdec0, lookup_nil]
     · simp only [isNil_false_of_ne ht, Bool.false_eq_true, if_false, reopenAt]
-      exact get_committed c hlen hinj s.death t ht hdec k
+      exact get_committed c hlen hinj h0 s.death t ht hcov hdec k
 
 end Gossamer.C06
